@@ -22,8 +22,6 @@ INVARIANT IndexRow
 INVARIANT IndexCol
 INVARIANT ScoreLaw
 INVARIANT WithvecOK
-INVARIANT FindLatticeOK
-INVARIANT FindLatticeAnyDir
 INVARIANT MinkSane
 INVARIANT Emit
 PROPERTY Variant
